@@ -98,6 +98,8 @@ func main() {
 		gencaseMain(os.Args[2:])
 	case "pool":
 		poolMain()
+	case "pristine13":
+		pristine13Main(os.Args[2:])
 	default:
 		fmt.Fprintln(os.Stderr, "unknown mode", os.Args[1])
 		os.Exit(2)
